@@ -123,6 +123,9 @@ type Machine struct {
 	preemptLeft int
 	// concrete replay (no solver): inputs and choices come from a counterexample
 	conc *concreteRun
+	// happens-before race detection (Params["race"] = 1)
+	race *raceState
+	raceForkExtra vclock // joined into the next spawned goroutine's clock (timer callbacks)
 
 	// goroutines
 	gs     []*goroutine
@@ -566,6 +569,8 @@ type goroutine struct {
 func (m *Machine) spawn(fn value, args []value, pos token.Pos) {
 	g := &goroutine{id: len(m.gs), wake: make(chan struct{}, 1), what: describeFn(fn)}
 	m.gs = append(m.gs, g)
+	m.raceFork(g, m.raceForkExtra)
+	m.raceForkExtra = nil
 	go func() {
 		select {
 		case <-g.wake:
@@ -809,6 +814,10 @@ func (m *Machine) newChan(n int, elemT types.Type) *vchan {
 
 func (m *Machine) chanSend(ch *vchan, v value) {
 	m.schedPoint("chan send")
+	if ch != nil {
+		m.raceAcqRel(ch)
+		defer m.raceAcquire(ch)
+	}
 	if ch == nil {
 		m.block("send on nil chan", func() bool { return false })
 	}
@@ -833,6 +842,10 @@ func (ch *vchan) canRecv() bool {
 
 func (m *Machine) chanRecv(ch *vchan) (value, bool) {
 	m.schedPoint("chan recv")
+	if ch != nil && m.race != nil {
+		m.raceRelease(ch)
+		defer m.raceAcquire(ch)
+	}
 	if m.seg != nil && ch != nil {
 		if !ch.shared {
 			panic(unsupported{"receive on a channel that is not registered with vrtSharedChan"})
@@ -975,6 +988,7 @@ func (m *Machine) doSelect(fr *frame, instr *ssa.Select) value {
 			m.chanSend(c.ch, c.v)
 		} else {
 			recv, recvOk = c.ch.take()
+			m.raceAcqRel(c.ch)
 		}
 	}
 	r := tuple{chosen, recvOk}
